@@ -339,7 +339,17 @@ pub fn run<P: Policy>(
             kind: op.kind,
             path: names.norm(&op.path),
             path2: if op.kind == OpKind::Boundary {
-                names.norm_text(&op.path2)
+                // long payloads (compiled hex) are for the policy, not for the log
+                let t = names.norm_text(&op.path2);
+                if t.len() > 240 {
+                    let mut k = 240;
+                    while !t.is_char_boundary(k) {
+                        k -= 1;
+                    }
+                    format!("{}...", &t[..k])
+                } else {
+                    t
+                }
             } else {
                 names.norm(&op.path2)
             },
